@@ -515,6 +515,19 @@ def clock_rules(repo, rep, m):
                     rep.holds('R-CLOCK', key, where(f, c), 'clock read reachable from the editors; %s' % how)
                 else:
                     rep.violated('R-CLOCK', key, where(f, c), 'a clock read reachable from the editing functions is written with a width that depends on the time')
+    # one stamp, one reading: year, day of year and seconds of the day must come from the same instant - two readings that straddle
+    # midnight give the old day with the new day's seconds (a stamp 24 h off; across new year 25:365:00000)
+    for q, f in sorted(seen.items()):
+        reads = [c for c in calls_in(f.node) if stmt_text(c.func).endswith(('.now', '.today', '.utcnow', 'time.time'))]
+        if not reads:
+            continue
+        key = 'R-CLOCK::geodepy/gnss.py::%s::single-reading' % q
+        in_loop = any(isinstance(l_, (ast.For, ast.While)) and any(x is c for x in ast.walk(l_)) for c in reads for l_ in ast.walk(f.node))
+        if len(reads) == 1 and not in_loop:
+            rep.holds('R-CLOCK', key, where(f, reads[0]), 'the clock is read once; every field of the stamp is derived from that reading')
+        else:
+            rep.violated('R-CLOCK', key, where(f, reads[-1]), '%s reads the clock %d times: the fields of one stamp come from different instants - an edit that straddles midnight writes the '
+                         'old day with the new day\'s seconds of day (25:365:00000 at new year)' % (q, len(reads)), expected='one reading', actual='%d readings' % len(reads))
     if n == 0:
         rep.undecided('R-CLOCK', 'R-CLOCK::geodepy/gnss.py::none', 'geodepy/gnss.py:1', 'no clock read found: the creation-time stamp is not updated?')
 
